@@ -71,6 +71,10 @@ def ensure_facts(repo=REPO, verbose=False):
         out = os.path.join(WORK, "facts", key)
         done = os.path.join(out, "DONE")
         if os.path.exists(done):
+            try:
+                os.utime(out)          # most recently used: the pruning below goes by age
+            except OSError:
+                pass
             return out
         if os.path.exists(out):
             shutil.rmtree(out)
@@ -116,8 +120,12 @@ def ensure_facts(repo=REPO, verbose=False):
         # keep the cache small
         base = os.path.join(WORK, "facts")
         ents = sorted((os.path.getmtime(os.path.join(base, d)), d) for d in os.listdir(base))
-        for _, d in ents[:-6]:
-            shutil.rmtree(os.path.join(base, d), ignore_errors=True)
+        # (a directory handed out earlier may still be read by a parallel worker of the self-test corpus: only what has not
+        #  been used for a while goes, and never less than the 40 most recent — about 6 MB each)
+        now = time.time()
+        for mt, d in ents[:-40]:
+            if now - mt > 1800:
+                shutil.rmtree(os.path.join(base, d), ignore_errors=True)
         return out
     finally:
         fcntl.flock(lock, fcntl.LOCK_UN)
